@@ -6,6 +6,7 @@ set -e
 cd "$(dirname "$0")"
 python3 gen/src_constants.py
 python3 gen/ast_translate.py
+python3 gen/ast_translate64.py
 cd coq
 coq_makefile -f _CoqProject -o Makefile > /dev/null
 timeout 7000 make -j16
